@@ -38,7 +38,11 @@ impl TelemetryTracker {
             byte_size = byte_size.saturating_add(frame.compressed_len as u64);
         }
 
-        let high_water_mark = state.frames().last().map(|frame| frame.high_water_mark);
+        let high_water_mark = state
+            .frames()
+            .iter()
+            .map(|frame| frame.high_water_mark)
+            .max_by_key(|mark| (mark.timestamp, mark.event_id));
 
         TelemetrySnapshot {
             row_count,
